@@ -3,8 +3,9 @@ CONSTANTS
   Accepted = {"v1", "v2"}
   Rejected <- RejectedPerturb
   TruncPoints = {}
-  Spellings = {"rel", "abs", "gofile", "both"}
-  Cwds = {"pkg", "root", "sibling", "outside"}
+  Spellings = {"rel", "abs", "gofile", "both", "link", "linkout"}
+  Placement = "file"
+  Cwds = {"pkg", "root", "sibling", "outside", "pkglink"}
   RecordHist = FALSE
   MaxHist = 0
   FlagSets <- AllFlags
